@@ -34,6 +34,15 @@ whose wire format is symmetric and that have both a bind and a result processor
 (Interval, Enum, JSON, Uuid, PickleType, Boolean, ARRAY of those on PostgreSQL) satisfy
 ``result_processor(bind_processor(v)) == v``.
 
+Names and paramstyles: every Part A column (hence every generated bind parameter) has a name
+drawn from patterns that need quoting / bind-name escaping (space . : % ( ) [ ]), shifted per
+shard; Part A and Part B engines rotate through qmark / named / numeric / numeric_dollar; Part B
+adds a table of tagging decorators under such names plus an explicitly named hostile
+``bindparam``.  Typed wrappers: ``label(name, expr, type_=T)`` / ``type_coerce`` / ``cast`` whose
+type differs from the inner expression's, consumed directly and through 1-3 levels of derived
+selectables (Part A: every type over the untyped raw column; Part B: tagging decorators over plain
+columns).
+
 Modes: cext and purepy (``_processors_cy`` str_to_date/datetime/time, int_to_boolean,
 to_decimal_processor_factory; ``_row_cy`` processor application).
 
@@ -62,7 +71,7 @@ META = {
     "exhaustive": {"quick": False, "thorough": False},
     "require": ["cells_compared", "boundary_cells", "tag_cells_checked", "bind_hook_calls", "result_hook_calls",
                 "returning_cells", "orm_cells", "processor_pairs_checked", "sqltag_cells_checked",
-                "name_matched_executions"],
+                "name_matched_executions", "typed_wrapper_cells", "hostile_name_rows"],
     "assumptions": ["type-specific comparators encode only documented precision limits (see Guards)"],
 }
 
@@ -222,6 +231,20 @@ def _same_json_types(a, b):
     return True
 
 
+# column / bind parameter names that need quoting and, for the non-positional paramstyles,
+# escaping of the bind name: space . : % ( ) [ ]
+NAME_PATTERNS = ("{}", "{} sp", "{}.dot", "{}:col", "{}%pc", "{}(p)", "{}[b]")
+
+
+def hostile(base, i):
+    return NAME_PATTERNS[i % len(NAME_PATTERNS)].format(base)
+
+
+def qn(name):
+    """SQLite quoted identifier"""
+    return '"' + name.replace('"', '""') + '"'
+
+
 def contexts(sa, orm, t, cls, names):
     """name -> (depth, builder) ; builder(conn_or_session) -> list of (id, {name: value})"""
     cols = [t.c[n] for n in names]
@@ -264,10 +287,47 @@ def contexts(sa, orm, t, cls, names):
         return sa.select(u.c.id, *[u.c[n] for n in names])
 
     out["union_subquery"] = core(union_sub, 3)
-    out["text_columns"] = core(lambda: sa.text(f"SELECT id, {', '.join(names)} FROM {t.name}").columns(
+    out["text_columns"] = core(lambda: sa.text(
+        "SELECT id, %s FROM %s" % (", ".join(qn(n).replace(":", "\\:") for n in names), t.name)).columns(
         sa.column("id", sa.Integer), *[sa.column(n, t.c[n].type) for n in names]), 1)
-    out["type_coerce"] = core(lambda: sa.select(t.c.id, *[sa.type_coerce(sa.literal_column(t.name + "." + n), t.c[n].type).label(n)
-                                                           for n in names]), 1)
+
+    def raw(n):   # the column without any type information
+        return sa.literal_column(f"{t.name}.{qn(n)}")
+
+    out["type_coerce"] = core(lambda: sa.select(t.c.id, *[sa.type_coerce(raw(n), t.c[n].type).label(n) for n in names]), 1)
+    # typed wrappers whose type differs from the inner expression's, consumed directly and through
+    # 1-3 levels of derived selectables
+    wrappers = {
+        "typed_label": lambda n: sa.label("w_" + n, raw(n), type_=t.c[n].type),
+        "type_coerce_label": lambda n: sa.type_coerce(raw(n), t.c[n].type).label("w_" + n),
+    }
+    for wname, wrap in wrappers.items():
+        def base(wrap=wrap):
+            return sa.select(t.c.id.label("wid"), *[wrap(n) for n in names])
+
+        def w_sub(base=base):
+            sq = base().subquery()
+            return sa.select(sq.c.wid, *[sq.c["w_" + n] for n in names])
+
+        def w_cte(base=base):
+            c1 = base().cte("wc")
+            return sa.select(c1.c.wid, *[c1.c["w_" + n] for n in names])
+
+        def w_nested(base=base):
+            s1 = base().subquery("ws1")
+            s2 = sa.select(s1.c.wid.label("wid2"), *[s1.c["w_" + n].label("v_" + n) for n in names]).subquery("ws2")
+            s3 = sa.select(s2).subquery("ws3")
+            return sa.select(s3.c.wid2, *[s3.c["v_" + n] for n in names])
+
+        def w_union(base=base):
+            u = sa.union_all(base().where(t.c.id % 2 == 0), base().where(t.c.id % 2 == 1)).subquery("wu")
+            return sa.select(u.c.wid, *[u.c["w_" + n] for n in names])
+
+        out[f"{wname}_direct"] = core(base, 1)
+        out[f"{wname}_subquery"] = core(w_sub, 2)
+        out[f"{wname}_cte"] = core(w_cte, 2)
+        out[f"{wname}_nested"] = core(w_nested, 3)
+        out[f"{wname}_union_subquery"] = core(w_union, 3)
 
     def alias_join():
         a = t.alias("a1")
@@ -304,16 +364,21 @@ def contexts(sa, orm, t, cls, names):
     return out
 
 
+PSTYLES = ("qmark", "named", "numeric", "numeric_dollar")
+
+
 def part_a(ctx, sa, orm, engine_factory):
     import time
 
     rng = ctx.rng
     specs = build_specs(sa, rng)
-    names = ["c_" + s[0] for s in specs]
-    by_name = {"c_" + s[0]: s for s in specs}
+    # column (hence bind parameter) names rotate through NAME_PATTERNS, shifted per shard, so every
+    # type meets every kind of hostile name; engines rotate through the four paramstyles
+    names = [hostile("c_" + s[0], i + ctx.shard) for i, s in enumerate(specs)]
+    by_name = dict(zip(names, specs))
     md = sa.MetaData()
     t = sa.Table("wide", md, sa.Column("id", sa.Integer, primary_key=True), sa.Column("tag", sa.String),
-                 *[sa.Column("c_" + s[0], s[1]) for s in specs])
+                 *[sa.Column(n, s[1]) for n, s in zip(names, specs)])
     reg = orm.registry()
     cls = type("Wide", (object,), {})
     reg.map_imperatively(cls, t)
@@ -326,14 +391,15 @@ def part_a(ctx, sa, orm, engine_factory):
             # later rounds of part B are not starved on a loaded machine
             if rnd and (not ctx.budget_ok() or time.monotonic() - ctx.t0 > 0.55 * ctx.soft_s):
                 break
-            eng = engine_factory()
+            pstyle = PSTYLES[(rnd + ctx.shard) % len(PSTYLES)]
+            eng = engine_factory(pstyle)
+            ctx.seen("part_a_paramstyle", pstyle)
             md.create_all(eng)
             rows = []
             for i in range(nbound + nrand):
                 row = {"tag": f"r{i}"}
-                for (nm, typ, bvals, gen, cmp) in specs:
-                    # boundary rows: shard-rotated so all shards together see each boundary with each delivery
-                    row["c_" + nm] = bvals[i] if i < len(bvals) else gen()
+                for cname_, (nm, typ, bvals, gen, cmp) in zip(names, specs):
+                    row[cname_] = bvals[i] if i < len(bvals) else gen()
                 rows.append(row)
             rows.append(dict({"tag": "allnull"}, **{n: None for n in names}))
             rng.shuffle(rows)
@@ -580,7 +646,9 @@ def part_b(ctx, sa, orm, engine_factory):
         for rnd in range(rounds):
             if rnd and not ctx.budget_ok():
                 break
-            eng = engine_factory()
+            pstyle = PSTYLES[(rnd + ctx.shard + 1) % len(PSTYLES)]
+            eng = engine_factory(pstyle)
+            ctx.seen("part_b_paramstyle", pstyle)
             md.create_all(eng)
             n = rng.randint(4, 9)
             rows = []
@@ -739,10 +807,156 @@ def part_b(ctx, sa, orm, engine_factory):
             sql_tag_part(ctx, sa, orm, eng, q, qcls, rng, rnd)
             # ---- name-matched result columns under a changing cursor column order
             name_matched_part(ctx, sa, eng, Tag, ITag, calls, rng, rnd)
+            # ---- typed label / type_coerce / cast over a differently typed column, through derived selectables
+            typed_wrapper_part(ctx, sa, eng, t, rows_by_id, Tag, ITag, calls)
+            # ---- hostile column / bind parameter names under this round's paramstyle
+            hostile_names_part(ctx, sa, eng, pstyle, Tag, ITag, Outer, JTag, calls, rng, rnd)
             md.drop_all(eng)
             eng.dispose()
     finally:
         reg.dispose()
+
+
+def typed_wrapper_part(ctx, sa, eng, t, rows_by_id, Tag, ITag, calls):
+    """``label(name, expr, type_=T)`` / ``type_coerce(expr, T)`` / ``cast(expr, T)`` where T (a
+    tagging decorator) differs from the type of expr (plain String / Integer column), selected
+    directly and through subquery, CTE, nested re-labelled subqueries and a union used as a
+    subquery: result processing exactly once (``R[x]`` / ``x*10+2``), never zero times."""
+    wrappers = {
+        "typed_label": lambda: (sa.label("ws", t.c.plain, type_=Tag()), sa.label("wi", t.c.id, type_=ITag())),
+        "type_coerce": lambda: (sa.type_coerce(t.c.plain, Tag()).label("ws"), sa.type_coerce(t.c.id, ITag()).label("wi")),
+        "cast": lambda: (sa.cast(t.c.plain, Tag()).label("ws"), sa.cast(t.c.id, ITag()).label("wi")),
+    }
+
+    def base(w):
+        return sa.select(t.c.id.label("wid"), *wrappers[w]())
+
+    def sub(w):
+        sq = base(w).subquery()
+        return sa.select(sq.c.wid, sq.c.ws, sq.c.wi)
+
+    def cte(w):
+        c1 = base(w).cte("twc")
+        return sa.select(c1.c.wid, c1.c.ws, c1.c.wi)
+
+    def nested(w):
+        s1 = base(w).subquery("t1")
+        s2 = sa.select(s1.c.wid.label("wid2"), s1.c.ws.label("ws2"), s1.c.wi.label("wi2")).subquery("t2")
+        s3 = sa.select(s2).subquery("t3")
+        return sa.select(s3.c.wid2, s3.c.ws2, s3.c.wi2)
+
+    def union(w):
+        u = sa.union_all(base(w).where(t.c.id % 2 == 0), base(w).where(t.c.id % 2 == 1)).subquery("tu")
+        return sa.select(u.c.wid, u.c.ws, u.c.wi)
+
+    with eng.connect() as c:
+        for w in wrappers:
+            for dname, depth, mk in (("direct", 1, base), ("subquery", 2, sub), ("cte", 2, cte), ("nested", 3, nested),
+                                     ("union_subquery", 3, union)):
+                n0 = len(calls["result"])
+                rows = c.execute(mk(w)).all()
+                rc = calls["result"][n0:]
+                ctx.count("result_hook_calls", len(rc))
+                cname = f"{w}_{dname}"
+                if len(rc) != 2 * len(rows):
+                    ctx.violation("result-hook-call-count", f"{len(rc)} result hook calls for {len(rows)} rows x 2 hooks "
+                                  f"(context {cname})", {"context": cname})
+                for i, ws, wi in rows:
+                    x = rows_by_id[i]["x"]
+                    ctx.count("tag_cells_checked", 2)
+                    ctx.count("typed_wrapper_cells", 2)
+                    want = (None if x is None else f"R[{x}]", i * 10 + 2)
+                    if (ws, wi) != want:
+                        ctx.violation("typed-wrapper-result-processing-layers",
+                                      f"{w} over a plain column selected via {dname}: got {(ws, wi)!r} expected {want!r}",
+                                      {"context": cname})
+                        ctx.seen("typed_wrapper_failure_context", cname)
+                        break
+                ctx.seen("tag_context", cname)
+                ctx.case({"part": "B-typed-wrapper", "context": cname, "shard": ctx.shard}, nontrivial=depth >= 2)
+
+
+def hostile_names_part(ctx, sa, eng, pstyle, Tag, ITag, Outer, JTag, calls, rng, rnd):
+    """tagging decorators on columns whose NAMES need quoting / bind-name escaping (space . : % ( )
+    [ ]), under the engine's paramstyle: INSERT single / executemany / RETURNING, UPDATE SET, WHERE
+    comparison, and an explicitly named ``bindparam("hostile name", type_=Tag())``: bind processing
+    exactly once (stored ``B[x]``), result processing exactly once."""
+    import datetime as dt
+
+    shift = rnd + ctx.shard
+    bases = [("tag", Tag()), ("itag", ITag()), ("otag", Outer()), ("jtag", JTag()), ("when", sa.DateTime()),
+             ("iv", sa.Interval()), ("en", sa.Enum("a", "b c", name="hn_e", native_enum=False))]
+    names = {b: hostile(b, j + shift + 1) for j, (b, _) in enumerate(bases)}   # +1: start beyond the plain pattern
+    md = sa.MetaData()
+    t = sa.Table(f"hn{rnd}", md, sa.Column("id", sa.Integer, primary_key=True),
+                 *[sa.Column(names[b], typ) for b, typ in bases])
+    N = names
+    md.create_all(eng)
+    try:
+        vals = []
+        for i in range(rng.randint(3, 6)):
+            x = f"h{ctx.shard}.{rnd}.{i}"
+            vals.append({"id": i + 1, N["tag"]: x, N["itag"]: i, N["otag"]: x, N["jtag"]: {"k": i},
+                         N["when"]: dt.datetime(2000 + i, 1, 2, 3, 4, 5, i + 1), N["iv"]: dt.timedelta(days=-i, microseconds=i),
+                         N["en"]: rng.choice(["a", "b c"])})
+        n0 = len(calls["bind"])
+        with eng.begin() as c:
+            c.execute(sa.insert(t), vals[0])
+            c.execute(sa.insert(t), vals[1:-1])
+            ret = c.execute(sa.insert(t).returning(t.c.id, t.c[N["tag"]]), [vals[-1]]).all()
+        bc = calls["bind"][n0:]
+        ctx.count("bind_hook_calls", len(bc))
+        ctx.count("hostile_name_rows", len(vals))
+        d = {"paramstyle": pstyle, "names": sorted(N.values())}
+        if len(bc) != 5 * len(vals):
+            ctx.violation("bind-hook-call-count-hostile-names", f"{len(bc)} bind hook calls for {len(vals)} rows x 5 hooks "
+                          f"({d})", d)
+        if ret and ret[0][1] != f"R[B[{vals[-1][N['tag']]}]]":
+            ctx.violation("tag-layers-hostile-names", f"RETURNING gave {ret[0][1]!r} ({d})", d)
+        with eng.connect() as c:
+            raw = c.exec_driver_sql("SELECT id, %s FROM %s ORDER BY id" % (", ".join(qn(N[b]) for b in ("tag", "itag", "otag")), t.name)).fetchall()
+            for (i, tg, it, ot), v in zip(raw, vals):
+                x = v[N["tag"]]
+                ctx.count("tag_cells_checked", 3)
+                if (tg, it, ot) != (f"B[{x}]", v[N["itag"]] * 10 + 1, f"B[OB[{x}]]"):
+                    ctx.violation("stored-value-bind-layers-hostile-names",
+                                  f"stored {(tg, it, ot)!r} for {x!r}: bind processing not applied exactly once ({d})", d)
+                    break
+            got = {r[0]: r for r in c.execute(sa.select(t))}
+            for v in vals:
+                r = got[v["id"]]._mapping
+                x = v[N["tag"]]
+                want = {N["tag"]: f"R[B[{x}]]", N["itag"]: (v[N["itag"]] * 10 + 1) * 10 + 2, N["otag"]: f"OR[R[B[OB[{x}]]]]",
+                        N["jtag"]: {"R": {"B": v[N["jtag"]]}}, N["when"]: v[N["when"]], N["iv"]: v[N["iv"]], N["en"]: v[N["en"]]}
+                ctx.count("tag_cells_checked", len(want))
+                bad = {k2: (r[k2], w2) for k2, w2 in want.items() if r[k2] != w2}
+                if bad:
+                    ctx.violation("tag-layers-hostile-names", f"round trip through hostile column names: {bad} ({d})", d)
+                    break
+            # WHERE comparison (generated bind name derives from the column name) and an explicit bindparam name
+            v0 = vals[0]
+            n1 = len(calls["bind"])
+            f1 = c.execute(sa.select(t.c.id).where(t.c[N["tag"]] == v0[N["tag"]])).scalars().all()
+            pname = hostile("my param", shift + 2)
+            f2 = c.execute(sa.select(t.c.id).where(t.c[N["otag"]] == sa.bindparam(pname, type_=Outer())),
+                           {pname: v0[N["otag"]]}).scalars().all()
+            bc = calls["bind"][n1:]
+            ctx.count("bind_hook_calls", len(bc))
+            if f1 != [v0["id"]] or f2 != [v0["id"]] or len(bc) != 3:
+                ctx.violation("where-comparison-bind-layers-hostile-names",
+                              f"WHERE on hostile names found {f1} / {f2} (expected [{v0['id']}]) with {len(bc)} bind hook calls "
+                              f"(expected 3), bindparam name {pname!r} ({d})", d)
+        with eng.begin() as c:
+            n2 = len(calls["bind"])
+            res = c.execute(sa.update(t).values({N["tag"]: "upd", N["itag"]: 3}).where(t.c.id == vals[0]["id"])
+                            .returning(t.c[N["tag"]], t.c[N["itag"]])).all()
+            bc = calls["bind"][n2:]
+            if len(bc) != 2 or [tuple(r) for r in res] != [("R[B[upd]]", 312)]:
+                ctx.violation("update-set-bind-layers-hostile-names", f"UPDATE SET gave {res} with {len(bc)} bind calls ({d})", d)
+        ctx.seen("hostile_name_paramstyle", pstyle)
+        ctx.case({"part": "B-hostile-names", "paramstyle": pstyle, "shift": shift % len(NAME_PATTERNS)}, nontrivial=True)
+    finally:
+        md.drop_all(eng)
 
 
 def name_matched_part(ctx, sa, eng, Tag, ITag, calls, rng, rnd):
@@ -946,8 +1160,13 @@ def run(ctx):
 
     warnings.simplefilter("ignore")
 
-    def engine_factory():
-        return sa.create_engine("sqlite://", poolclass=sa.pool.StaticPool)
+    from vf.mon.dbapi_spy import Spy
+    from vf.mon.sqlite_shim_gd import spy_engine
+
+    def engine_factory(paramstyle="qmark"):
+        spy = Spy()
+        spy.enabled = False
+        return spy_engine(spy, ":memory:", paramstyle, poolclass=sa.pool.StaticPool)
 
     # the first round of every part always runs (the soft deadline only stops further rounds)
     for name, part in (("A", part_a), ("B", part_b)):
